@@ -21,6 +21,7 @@ from typing import Tuple, Dict, List
 
 from deep.api.tracepoint import StackFrame, Variable
 from deep.utils import time_ns
+from .variable_processor import type_name
 from .variable_set_processor import VariableCacheProvider, VariableSetProcessor, VariableProcessorConfig
 
 
@@ -145,7 +146,7 @@ class FrameCollector:
         class_name = None
         if _self is not None:
             # the type, not _self.__class__: attribute access on an object of the application can raise
-            class_name = type(_self).__name__
+            class_name = type_name(type(_self))
 
         var_ids = []
         # only process vars if we are under the time limit
